@@ -17,7 +17,7 @@ func init() {
 		Assumptions: []string{"linear-scan specification"},
 		Roles: map[string]Role{
 			"exhaustive": {N: func(t string) int { return 16 }, Case: c18Exhaustive},
-			"seeded":     {N: func(t string) int { return tierN(t, 200, 2000) }, Case: c18Seeded},
+			"seeded":     {N: func(t string) int { return tierN(t, 200, 20000) }, Case: c18Seeded},
 		},
 		Post: func(r *rt.Run, tier string) {
 			r.Extra("exhaustive_part", "all 4096 subsets of {1..12} x points 0..13 x horizons 0..13")
